@@ -359,6 +359,34 @@ func ruleC09R2(w *World, r *Report) {
 						}
 					}
 				}
+				if found == "" && fn.Signature.Recv() == nil && len(naturalLoops(fn)) == 0 {
+					// a constructor (newBadNode(pos, tokens)): decided where it is called — every call is dominated by a
+					// recording call
+					sites := w.callersOf(fn)
+					nOK, nAll := 0, 0
+					for _, site := range sites {
+						if site.Parent() == nil || site.Parent().Synthetic != "" {
+							continue
+						}
+						nAll++
+						okSite := false
+						for d := site.Block(); d != nil && !okSite; d = d.Idom() {
+							for _, x := range d.Instrs {
+								if c, ok := x.(*ssa.Call); ok {
+									if callee := c.Call.StaticCallee(); callee != nil && rec[callee] {
+										okSite = true
+									}
+								}
+							}
+						}
+						if okSite {
+							nOK++
+						}
+					}
+					if nAll > 0 && nOK == nAll {
+						found = fmt.Sprintf("a recording call before each of the %d calls of the constructor", nAll)
+					}
+				}
 				if found == "" {
 					r.bad(rule, construct, w.pos(al.Pos()), "a Bad node is created on a path that has not recorded an error in Parser.errors")
 				} else {
